@@ -74,24 +74,38 @@ def run(chk: core.Check, tier: str, seed: int) -> None:
     probe_doc = [0, 1, "a", True, None, [], [1], [1, 1], {"a": 1}, {"a": 0, "b": 2}, {"a": [1]}, [{"a": 1}]]
     eprobe = core.enc_value(probe_doc)
     n_probe = 0
+    # every environment exists before any of them is used, and they are used interleaved: a registry
+    # shared between environments (or between an environment and the module default) shows up as the
+    # wrong function being called
+    worlds = []
     for params, ret in sigs:
         full = [("f", params, ret)] + HELPERS + [("gl2", ["L"], "L")]
-        reg = probes.reg_records(full)
+        log = []
+        worlds.append((params, ret, full, probes.reg_records(full), log, probes.make_env(jp, full, log)))
+    jobs = []
+    for w, (params, ret, full, reg, log, env) in enumerate(worlds):
         for _ in range(per_sig):
             args = [rng.choice(BY_TYPE[p]) for p in params]
             call = "f(" + ", ".join(args) + ")"
             for q in rng.sample(shapes(ret, call, rng), 2):
-                log = []
-                env = probes.make_env(jp, full, log)
-                rec = impl.rec_find(jp, q, probe_doc, env=env, extra={"reg": reg}, edoc=eprobe)
-                rec["op"] = "probe"
-                rec["fname"] = core.enc_text("f")
-                rec["calls"] = [c["args"] for c in log if c["f"] == "f"]
-                recs.append(rec)
-                frec = dict(rec)
-                frec["op"] = "find"
-                recs.append(frec)
-                n_probe += 1
+                jobs.append((w, q))
+    rng.shuffle(jobs)
+    for w, q in jobs:
+        params, ret, full, reg, log, env = worlds[w]
+        del log[:]
+        rec = impl.rec_find(jp, q, probe_doc, env=env, extra={"reg": reg}, edoc=eprobe)
+        rec["op"] = "probe"
+        rec["fname"] = core.enc_text("f")
+        rec["calls"] = [c["args"] for c in log if c["f"] == "f"]
+        recs.append(rec)
+        frec = dict(rec)
+        frec["op"] = "find"
+        recs.append(frec)
+        n_probe += 1
+    # the module-level functions still see the built-ins only
+    for q in ["$[?length(@) == 1]", "$[?count(@.*) == 1]", "$[?value(@.*) == 1]", "$[?match(@, 'a')]", "$[?f(@)]", "$[?kv(@) == 1]"]:
+        recs.append(impl.rec_find(jp, q, probe_doc, edoc=eprobe))
+        recs.append(impl.rec_compile(jp, q))
     for r in recs:
         if r.get("locs") or r.get("calls"):
             chk.nontrivial.add((tuple(r["q"]), r["op"]))
@@ -99,7 +113,7 @@ def run(chk: core.Check, tier: str, seed: int) -> None:
     pr = [r for r in recs if r["op"] == "probe" and r.get("calls")][7]
     chk.sample({"query": core.dec_text(pr["q"]), "signature": pr["reg"][0], "first_calls": pr["calls"][:3]})
     common.judge(chk, recs, "c10", what="Trace: built-in and probe function records vs Eval.tla",
-                 only=lambda c: not c.startswith(("C03", "C04", "C05", "C13")))
+                 only=lambda c: c.startswith("C13 find") or not c.startswith(("C03", "C04", "C05", "C13")))
     chk.rule = (
         f"{n_builtin} built-in records (length/count/value x {len(KINDS)} child kinds under an array and an object) + "
         f"{n_probe} probe records: all {len(sigs)} signatures over {{V,L,N}}^n->type (n<=2) x {per_sig} seeded argument "
